@@ -50,6 +50,8 @@ type Driver struct {
 	// Jitter > 0 inserts Gosched/µs sleeps at the driver boundaries (real-goroutine schedule stress)
 	Jitter  func() time.Duration
 	SendErr map[uint8]error
+	// SendCost > 0: every SendProbe takes that long (a sink that blocks: full send buffer, slow raw socket)
+	SendCost time.Duration
 	// BlockSend, when non-nil, makes SendProbe wait for the channel (stall injection)
 	mu      sync.Mutex
 	start   time.Time
@@ -120,6 +122,11 @@ func (d *Driver) SendProbe(ttl uint8) error {
 	select {
 	case d.wake <- struct{}{}:
 	default:
+	}
+	if d.SendCost > 0 {
+		d.mu.Unlock()
+		time.Sleep(d.SendCost)
+		d.mu.Lock()
 	}
 	return nil
 }
